@@ -96,6 +96,8 @@ pub fn run(tier: Tier, seed: u64) -> i32 {
             ev.bucket("all_arithmetic_full_domain");
         }
         let variant = if rows < 6 { 0 } else { (ci + (seed % 6)) % 6 };
+        // number of trailing scalar inputs that are free (wired to blank rows only)
+        let mut free_inputs = 0usize;
         // --- program with the requested PI placement -------------------------
         let b = match variant {
             1 => {
@@ -127,6 +129,7 @@ pub fn run(tier: Tier, seed: u64) -> i32 {
                 let b = build::random_program(&mut rng, &cfg, rows - levels);
                 let b = build::low_degree_columns(b, levels);
                 ev.bucket("low_degree_wire_columns");
+                free_inputs = 4 * levels;
                 b
             }
             _ => build::random_program(&mut rng, &cfg, rows),
@@ -281,6 +284,33 @@ pub fn run(tier: Tier, seed: u64) -> i32 {
                 Err(f) => fail(&format!("C01:satisfied-instance-not-proved:{pn}:{}", short(&f)), json!({"error": f.text()})),
             }
         }
+        // One prover, several proofs: the program's free witnesses (blank rows)
+        // give other satisfying instances of the same circuit. The direct
+        // prover, which has already proved once, proves a second instance and
+        // then the first again; both must verify (state kept between proofs
+        // must not leak from one witness into the next proof).
+        if free_inputs > 0 && inputs.scalars.len() >= free_inputs {
+            let mut other = inputs.clone();
+            let n = other.scalars.len();
+            for x in other.scalars[n - free_inputs..].iter_mut() {
+                *x = crate::util::rand_scalar(&mut rng);
+            }
+            for (which, inp) in [("second-instance", &other), ("first-instance-again", &inputs)] {
+                let mut prng = case_rng(seed ^ 0x5e, "C01.again", ci * 4 + which.len() as u64);
+                match common::prove(&a.prover, &prog, inp, &[], &mut prng, PlonkVersion::V3).result {
+                    Ok((proof, pi)) => {
+                        ev.bucket("reused_prover_proofs");
+                        if let Err(f) = common::verify(&a.verifier, &proof, &pi, PlonkVersion::V3) {
+                            fail(&format!("C01:honest-proof-rejected:reused-prover:{which}:{}", short(&f)), json!({"error": f.text()}));
+                        }
+                        if !rv::decide(&vbytes, &proof.to_bytes(), &pi, rv::Version::V3).accepts() {
+                            fail(&format!("C01:reference-verifier-rejects-honest-proof:reused-prover:{which}"), json!({}));
+                        }
+                    }
+                    Err(f) => fail(&format!("C01:satisfied-instance-not-proved:reused-prover:{which}:{}", short(&f)), json!({"error": f.text()})),
+                }
+            }
+        }
         ev.case(&desc, reached && rows > 4);
         if rows < 6 {
             // tiny domains are counted apart so that they do not feed the
@@ -323,6 +353,7 @@ pub fn run(tier: Tier, seed: u64) -> i32 {
     ev.floor("capacities 1..7 below the minimal admitting one tried", ev.bucket_get("just_too_small_capacity_err") + ev.bucket_get("just_too_small_capacity_compiles"), 60);
     ev.floor("rayon pool sizes used for proving", ev.set_len("prover_pools") as u64, 12);
     ev.floor("full domains proved on a pool size that does not divide them", ev.bucket_get("full_domain_on_pool_not_dividing_it"), 6);
+    ev.floor("further proofs by a prover that had already proved another instance", ev.bucket_get("reused_prover_proofs"), 16);
     ev.floor("circuits whose wire polynomials have vanishing top coefficients", ev.bucket_get("low_degree_wire_columns"), 8);
     ev.floor("full domains holding arithmetic rows only (constant q_arith)", ev.bucket_get("all_arithmetic_full_domain"), 2);
     ev.floor("random programs of arbitrary size", ev.bucket_get("free_size_programs"), tier.pick(30, 500));
